@@ -24,7 +24,7 @@ LEVEL_NOTE = ('chi^2 values are chosen off the thresholds (equality is outside t
 RULE = ("cases: chunks of kind sequences; executions: filter_output per (sequence, criterion, input form, naming); one evaluation per source placed; non-trivial = distinct "
         "(sequence, criterion) that contain both good and bad sources")
 ASSUMPTIONS = ["best chi^2 never equals the threshold", "n_data >= 1"]
-REQUIRED_CLASSES = ['ranking-with-tied-rows', 'output-names-derived-from-the-input-name', 'bare-output-names', 'ranking-ends-in-nan-rows', 'record-over-64KiB-among-small-ones', 'arguments-by-position', 'criterion-chi', 'criterion-cpd', 'auto-names', 'explicit-names', 'input-file', 'input-list', 'all-good', 'all-bad', 'mixed', 'good-by-chi-only', 'good-by-cpd-only',
+REQUIRED_CLASSES = ['statistic-a-hair-below-the-threshold', 'best-chi2-exactly-zero', 'outputs-named-AUTO', 'ranking-with-tied-rows', 'output-names-derived-from-the-input-name', 'bare-output-names', 'ranking-ends-in-nan-rows', 'record-over-64KiB-among-small-ones', 'arguments-by-position', 'criterion-chi', 'criterion-cpd', 'auto-names', 'explicit-names', 'input-file', 'input-list', 'all-good', 'all-bad', 'mixed', 'good-by-chi-only', 'good-by-cpd-only',
                     'length-10', 'one-name-explicit', 'best-chi2-nan-or-inf', 'flags-edited-in-place-between-calls']
 TIMEOUT = {'quick': 600, 'thorough': 3000}
 
@@ -35,8 +35,11 @@ KINDS = {'G': (4.0, (1, 4, 0, 9)), 'C': (8.0, (1, 1, 2, 3)), 'P': (12.0, (1, 1, 
          'T': (4.0, (1, 4, 0, 9)),        # like G, but the ranking ends in NaN rows (invalid models ranked last): the best chi^2 is still 4
          'H': (4.0, (1, 4, 0, 9)),        # like G, with 400 fits and their fluxes: a record of more than 64 KiB among small ones
          'J': (40.0, (4, 1, 3)),         # like B, 400 fits
+         'K': (9.99995, (1, 4, 0, 9)),   # best chi^2 a hair below the chi threshold (good by chi: 9.99995 < 10; bad by cpd: 5 >= 3)
+         'L': (8.99997, (1, 1, 4, 0)),   # chi^2 per point a hair below the cpd threshold (2.99999 < 3): good by both
+         'Z': (0.0, (1, 4, 0, 9)),       # a perfect best fit: chi^2 exactly 0
          'Q': (4.0, (1, 4, 0, 9))}       # like G, four fits of which the last two are tied at 1e30 (and the model indices are not in rank order)
-GOOD = {'chi': {'G', 'C', 'T', 'H', 'Q'}, 'cpd': {'G', 'P', 'T', 'H', 'Q'}}
+GOOD = {'chi': {'G', 'C', 'T', 'H', 'Q', 'K', 'L', 'Z'}, 'cpd': {'G', 'P', 'T', 'H', 'Q', 'L', 'Z'}}
 
 
 def setup(tier, seed):
@@ -62,6 +65,10 @@ def setup(tier, seed):
             if ('H' in t or 'J' in t) and (tier == 'thorough' or sum(1 for x in t if x in 'HJ') == 1):
                 seqs.append(''.join(t))
     seqs += ['GBGHGBJB', 'BGJGHG']
+    for L in (1, 2, 3):
+        for t in itertools.product('GBKLZ', repeat=L):
+            if set(t) & set('KLZ'):
+                seqs.append(''.join(t))
     for L in (1, 2, 3):
         for t in itertools.product('GBQ', repeat=L):
             if 'Q' in t:
@@ -105,7 +112,7 @@ def _record(kind, idx, meta):
         n = 400
     if kind in 'TQ':
         n = 4
-    i.chi2 = best + np.arange(n) * 1.75 + 0.01 * idx if best == best else np.array([best] * n)
+    i.chi2 = best + np.arange(n) * 1.75 + (0.0 if kind in 'KLZ' else 0.01 * idx) if best == best else np.array([best] * n)
     if kind == 'T':
         i.chi2[2:] = np.nan
     if kind == 'Q':
@@ -179,6 +186,14 @@ def run_case(ctx, case, rec, d):
                     kw['output_good'], kw['output_bad'] = 'bg_%d' % n, 'bb_%d' % n
                     good_p, bad_p = os.path.join(d, 'bg_%d' % n), os.path.join(d, 'bb_%d' % n)
                     rec.cls('bare-output-names')
+                    if n % 2 == 0:
+                        # a file may be called AUTO or Auto: only the exact keyword 'auto' asks for automatic names
+                        kw['output_good'], kw['output_bad'] = 'AUTO', 'Auto'
+                        good_p, bad_p = os.path.join(d, 'AUTO'), os.path.join(d, 'Auto')
+                        for old_ in (good_p, bad_p):
+                            if os.path.exists(old_):
+                                os.remove(old_)
+                        rec.cls('outputs-named-AUTO')
                 sub = {'seq': seq, 'criterion': crit, 'form': frm, 'naming': naming}
                 try:
                     if naming == 'explicit' and n % 3 == 0:
@@ -206,6 +221,10 @@ def run_case(ctx, case, rec, d):
                     rec.cls('ranking-ends-in-nan-rows')
                 if 'Q' in seq:
                     rec.cls('ranking-with-tied-rows')
+                if set(seq) & set('KL'):
+                    rec.cls('statistic-a-hair-below-the-threshold')
+                if 'Z' in seq:
+                    rec.cls('best-chi2-exactly-zero')
                 if ('H' in seq or 'J' in seq) and len(seq) > 1:
                     rec.cls('record-over-64KiB-among-small-ones')
                 rec.cls('input-' + frm)
